@@ -35,6 +35,14 @@ def wrapS (bits : Nat) (n : Int) : Int :=
   let u := wrapU bits n
   if u < 2 ^ (bits - 1) then u else (u : Int) - (2 ^ bits : Nat)
 
+/-! ### width_from_max_int (cencoding.pyx 55-61)
+  `for i in range(0, 64): if value == 0: return i; value >>= 1` on an `int64`; falling out of the loop
+  returns 0 (C default for a `cpdef int32_t`).  A negative argument never reaches 0 (arithmetic shift). -/
+def widthLoop : Nat → Nat → Int → Nat
+  | 0, _, _ => 0
+  | f + 1, i, v => if v = 0 then i else widthLoop f (i + 1) (v / 2)
+def widthFromMaxInt (value : Int) : Nat := widthLoop 64 0 (wrapS 64 value)
+
 /-! ### read_unsigned_var_int (cencoding.pyx 172-189)
   `uint64 result`, `int32 shift`; `result |= (<int64>(byte & 0x7F) << shift)`. -/
 def readUvarintLoop (buf : List Nat) : Nat → Nat → Nat → Nat → K (Nat × Nat)
